@@ -214,7 +214,7 @@ func runRepl(c *fw.Ctx, co *Corpora, setup []byte, confirm *[]confirmReq) {
 		return
 	}
 	bsz := 200
-	randomPer := c.N(1500, 40000)
+	randomPer := c.N(1500, 20000)
 	// batches of export j, then round-robin over j so that a shard walks the chain 0,1,2…
 	perJ := make([][]batch, K)
 	maxB := 0
